@@ -22,9 +22,14 @@
    cfg: kind; troot = the thread that drains the source runs a ROOT queue (after a refused unlock it re-runs invoke2
    under the lock, inline_internal.h:1846) or a lane (it re-enqueues through invoke_finish); starve = avoid_starvation
    (source.c:810: false only for an overcommit root target).
+   Activation and installation are modelled: a source is created inactive ({INACTIVE, NEEDS_ACTIVATION}); dispatch_activate
+   = _dispatch_lane_resume(ds, true)'s loop (queue.c:3053), _dispatch_lane_resume_activate (role inheritance loop :2431),
+   then the ordinary resume; dispatch_resume on an inactive source activates it (the is_source clause of the resume loop);
+   until the first invoke has installed the source (ds_is_installed, source.c:751) every wakeup chooses a target without
+   looking at ds_pending_data (:926).
    Not modelled (a thread that gets there goes to POut and stays): the side suspend counter (more than 62 nested
-   suspensions) and over-resume; the source is taken activated and installed (hi field = suspend count only);
-   the life cycle after cancellation (C16); reference counts; QoS overrides beyond the max-qos merge. *)
+   suspensions), over-resume and the "invalid suspension state" crash of dispatch_activate; the life cycle after
+   cancellation (C16); reference counts; QoS overrides beyond the max-qos merge. *)
 From Coq Require Import ZArith Bool List.
 From Verif Require Import Word Conc Gen_consts Gen_dqstate.
 From Verif Require SLane SrcData.
@@ -37,7 +42,10 @@ Definition SERIAL_OWNED := 18014398509481984 + 2199023255552.     (* IN_BARRIER 
 Notation dkind := SrcData.dkind.
 Notation remove_z := SLane.remove_z.
 
-Record cfg := mkCfg { ck : dkind; troot : bool; starve : bool }.
+Record cfg := mkCfg { ck : dkind; troot : bool; starve : bool; canon : bool }.
+(* canon: the role the source inherits at activation (_dispatch_lane_inherit_wlh_from_target): BASE_ANON when it targets a
+   root queue, INNER otherwise *)
+Definition role_bits (c : cfg) : Z := if canon c then 1 else 0.
 
 Inductive pc :=
 | Idle
@@ -57,8 +65,12 @@ Inductive pc :=
 | PR_flags (q : Z)                     (* the resume made the source runnable: dx_wakeup(CONSUME_2): flags *)
 | PR_pend (q : Z)                      (* ... ds_pending_data *)
 | PR_wake (q : Z)                      (* ... _dispatch_queue_wakeup's loop without MAKE_DIRTY *)
+(* dispatch_activate *)
+| PA_rmw (q : Z)                       (* _dispatch_lane_resume(ds, true)'s loop *)
+| PA_role (q : Z)                      (* _dispatch_lane_resume_activate: dq_activate -> role inheritance loop, then resume *)
 (* a worker of the target queue: _dispatch_source_invoke *)
 | PW_lock (floor : Z)                  (* _dispatch_queue_drain_try_lock *)
+| PW_inst (owned : Z)                  (* invoke2: if (!ds->ds_is_installed) _dispatch_source_install (source.c:751) *)
 | PW_susp (owned : Z)                  (* invoke2: DISPATCH_QUEUE_IS_SUSPENDED(ds) (source.c:763) *)
 | PW_flags (owned : Z)                 (* :792 load of dq_atomic_flags *)
 | PW_pend (owned : Z)                  (* :794 load of ds_pending_data *)
@@ -75,6 +87,7 @@ Record gst := {
   st : Z;                      (* dq_state of the source *)
   pend : Z;                    (* ds_pending_data *)
   cancelled : bool;            (* DSF_CANCELED in dq_atomic_flags *)
+  installed : bool;            (* ds_is_installed *)
   rootq : Z;                   (* how many times the source sits in its target queue *)
   pcs : Z -> pc;
   token : option (option Z);   (* ghost: holder of the source's "enqueued" token, as in SLane *)
@@ -87,34 +100,46 @@ Record gst := {
   delivered : list Z           (* ghost: ds_data of the handler invocations, latest first *)
 }.
 
-(* role_bits: DISPATCH_QUEUE_ROLE_* of the activated source (0 inner, 1 base anon) *)
+(* the activated, installed source at rest; role_bits: DISPATCH_QUEUE_ROLE_* (0 inner, 1 base anon) *)
 Definition init_state (role_bits : Z) : gst :=
-  {| st := Z.shiftl (4096 - 1) 41 + 68719476736 * role_bits; pend := 0; cancelled := false; rootq := 0; pcs := fun _ => Idle;
+  {| st := Z.shiftl (4096 - 1) 41 + 68719476736 * role_bits; pend := 0; cancelled := false; installed := true; rootq := 0;
+     pcs := fun _ => Idle;
      token := None; wakers := []; rwakers := []; latched := 0; running := None; merged := []; dropped := []; delivered := [] |}.
 
+(* a source as dispatch_source_create leaves it: inactive, needs activation, not installed, no role yet *)
+Definition init_inactive : gst :=
+  {| st := Z.shiftl (4096 - 1) 41 + 36028797018963968 * 3; pend := 0; cancelled := false; installed := false; rootq := 0;
+     pcs := fun _ => Idle; token := None; wakers := []; rwakers := []; latched := 0; running := None; merged := []; dropped := [];
+     delivered := [] |}.
+
 Definition set_pc (s : gst) (t : Z) (p : pc) : gst :=
-  {| st := st s; pend := pend s; cancelled := cancelled s; rootq := rootq s; pcs := upd (pcs s) t p; token := token s;
+  {| st := st s; pend := pend s; cancelled := cancelled s; installed := installed s; rootq := rootq s; pcs := upd (pcs s) t p; token := token s;
      wakers := wakers s; rwakers := rwakers s; latched := latched s; running := running s; merged := merged s;
      dropped := dropped s; delivered := delivered s |}.
 Definition set_st (s : gst) (v : Z) : gst :=
-  {| st := v; pend := pend s; cancelled := cancelled s; rootq := rootq s; pcs := pcs s; token := token s;
+  {| st := v; pend := pend s; cancelled := cancelled s; installed := installed s; rootq := rootq s; pcs := pcs s; token := token s;
      wakers := wakers s; rwakers := rwakers s; latched := latched s; running := running s; merged := merged s;
      dropped := dropped s; delivered := delivered s |}.
 Definition set_rootq (s : gst) (n : Z) : gst :=
-  {| st := st s; pend := pend s; cancelled := cancelled s; rootq := n; pcs := pcs s; token := token s;
+  {| st := st s; pend := pend s; cancelled := cancelled s; installed := installed s; rootq := n; pcs := pcs s; token := token s;
      wakers := wakers s; rwakers := rwakers s; latched := latched s; running := running s; merged := merged s;
      dropped := dropped s; delivered := delivered s |}.
 Definition set_token (s : gst) (k : option (option Z)) : gst :=
-  {| st := st s; pend := pend s; cancelled := cancelled s; rootq := rootq s; pcs := pcs s; token := k;
+  {| st := st s; pend := pend s; cancelled := cancelled s; installed := installed s; rootq := rootq s; pcs := pcs s; token := k;
      wakers := wakers s; rwakers := rwakers s; latched := latched s; running := running s; merged := merged s;
      dropped := dropped s; delivered := delivered s |}.
 Definition set_wakers (s : gst) (w : list Z) : gst :=
-  {| st := st s; pend := pend s; cancelled := cancelled s; rootq := rootq s; pcs := pcs s; token := token s;
+  {| st := st s; pend := pend s; cancelled := cancelled s; installed := installed s; rootq := rootq s; pcs := pcs s; token := token s;
      wakers := w; rwakers := rwakers s; latched := latched s; running := running s; merged := merged s;
      dropped := dropped s; delivered := delivered s |}.
 Definition set_rwakers (s : gst) (w : list Z) : gst :=
-  {| st := st s; pend := pend s; cancelled := cancelled s; rootq := rootq s; pcs := pcs s; token := token s;
+  {| st := st s; pend := pend s; cancelled := cancelled s; installed := installed s; rootq := rootq s; pcs := pcs s; token := token s;
      wakers := wakers s; rwakers := w; latched := latched s; running := running s; merged := merged s;
+     dropped := dropped s; delivered := delivered s |}.
+
+Definition set_installed (s : gst) : gst :=
+  {| st := st s; pend := pend s; cancelled := cancelled s; installed := true; rootq := rootq s; pcs := pcs s; token := token s;
+     wakers := wakers s; rwakers := rwakers s; latched := latched s; running := running s; merged := merged s;
      dropped := dropped s; delivered := delivered s |}.
 
 Definition suspended_word (w : Z) : bool := nz (f_dq_state_is_suspended w).
@@ -124,7 +149,7 @@ Definition qos_ok (q : Z) : bool := (0 <=? q) && (q <? 8).
 Inductive call :=
 | CMerge (v q : Z)          (* dispatch_source_merge_data(ds, v); q: the source's wakeup qos *)
 | CWorker (floor : Z)       (* a worker of the target queue pops the source *)
-| CSuspend | CResume (q : Z)
+| CSuspend | CResume (q : Z) | CActivate (q : Z)
 | CCancel (q : Z)
 | CWake (q : Z).            (* any other wakeup with MAKE_DIRTY and a target *)
 
@@ -137,6 +162,7 @@ Definition begin (s : gst) (t : Z) (c : call) : option gst :=
           if 0 <? rootq s then Some (set_token (set_pc (set_rootq s (rootq s - 1)) t (PW_lock floor)) (Some (Some t))) else None
       | CSuspend => Some (set_pc s t PU_rmw)
       | CResume q => if qos_ok q then Some (set_pc s t (PR_rmw q)) else None
+      | CActivate q => if qos_ok q then Some (set_pc s t (PA_rmw q)) else None
       | CCancel q => if qos_ok q then Some (set_pc s t (PC_set q)) else None
       | CWake q => if qos_ok q then Some (set_wakers (set_pc s t (PS_wake q)) (t :: wakers s)) else None
       end
@@ -158,18 +184,19 @@ Definition gstep (c : cfg) (s : gst) (t : Z) : option gst :=
   (* ---------------- merge_data *)
   | PM_flags v q =>
       Some (if cancelled s
-            then {| st := st s; pend := pend s; cancelled := cancelled s; rootq := rootq s; pcs := upd (pcs s) t Idle;
+            then {| st := st s; pend := pend s; cancelled := cancelled s; installed := installed s; rootq := rootq s; pcs := upd (pcs s) t Idle;
                     token := token s; wakers := wakers s; rwakers := rwakers s; latched := latched s; running := running s;
                     merged := merged s; dropped := v :: dropped s; delivered := delivered s |}
             else set_pc s t (PM_op v q))
   | PM_op v q =>
-      Some {| st := st s; pend := SrcData.apply_merge (ck c) (pend s) v; cancelled := cancelled s; rootq := rootq s;
+      Some {| st := st s; pend := SrcData.apply_merge (ck c) (pend s) v; cancelled := cancelled s; installed := installed s; rootq := rootq s;
               pcs := upd (pcs s) t (PS_flags q); token := token s; wakers := t :: wakers s; rwakers := rwakers s;
               latched := latched s; running := running s; merged := v :: merged s; dropped := dropped s;
               delivered := delivered s |}
   | PS_flags q =>
       (* a cancelled source is woken by the cancellation clauses of _dispatch_source_wakeup (see CWake), not by this one *)
-      Some (if cancelled s then set_wakers (set_pc s t Idle) (remove_z t (wakers s)) else set_pc s t (PS_pend q))
+      Some (if negb (installed s) then set_pc s t (PS_wake q)                       (* :926 tq = dkq, whatever is pending *)
+            else if cancelled s then set_wakers (set_pc s t Idle) (remove_z t (wakers s)) else set_pc s t (PS_pend q))
   | PS_pend q =>
       Some (if pend s =? 0 then set_wakers (set_pc s t Idle) (remove_z t (wakers s)) else set_pc s t (PS_wake q))
   | PS_wake q =>
@@ -183,7 +210,7 @@ Definition gstep (c : cfg) (s : gst) (t : Z) : option gst :=
   | PS_rootpush => Some (set_token (set_pc (set_rootq s (rootq s + 1)) t Idle) (Some None))
   (* ---------------- cancel *)
   | PC_set q =>
-      Some {| st := st s; pend := pend s; cancelled := true; rootq := rootq s; pcs := upd (pcs s) t (PS_wake q);
+      Some {| st := st s; pend := pend s; cancelled := true; installed := installed s; rootq := rootq s; pcs := upd (pcs s) t (PS_wake q);
               token := token s; wakers := t :: wakers s; rwakers := rwakers s; latched := latched s; running := running s;
               merged := merged s; dropped := dropped s; delivered := delivered s |}
   (* ---------------- suspend / resume *)
@@ -196,8 +223,8 @@ Definition gstep (c : cfg) (s : gst) (t : Z) : option gst :=
       match resume_loop 0 0 (st s) 1 0 0 with
       | Commit new _ =>
           let s1 := set_st s new in
-          (* :3126 NEEDS_ACTIVATION cleared -> _dispatch_lane_resume_activate (not for an activated source) *)
-          if nz (Z.land (Z.lxor (st s) new) 36028797018963968) then Some (set_pc s1 t POut)
+          (* :3126 NEEDS_ACTIVATION cleared -> _dispatch_lane_resume_activate *)
+          if nz (Z.land (Z.lxor (st s) new) 36028797018963968) then Some (set_pc s1 t (PA_role q))
           else if suspended_word new then Some (set_pc s1 t Idle)
           (* :3152 IN_BARRIER changed -> BARRIER_COMPLETE hand-off (never taken by a source) *)
           else if nz (Z.land (Z.lxor (st s) new) 18014398509481984) then Some (set_pc s1 t POut)
@@ -206,7 +233,8 @@ Definition gstep (c : cfg) (s : gst) (t : Z) : option gst :=
       | _ => Some (set_pc s t POut)                       (* over-resume, or _dispatch_lane_resume_slow *)
       end
   | PR_flags q =>
-      Some (if cancelled s then set_rwakers (set_pc s t Idle) (remove_z t (rwakers s)) else set_pc s t (PR_pend q))
+      Some (if negb (installed s) then set_pc s t (PR_wake q)
+            else if cancelled s then set_rwakers (set_pc s t Idle) (remove_z t (rwakers s)) else set_pc s t (PR_pend q))
   | PR_pend q =>
       Some (if pend s =? 0 then set_rwakers (set_pc s t Idle) (remove_z t (rwakers s)) else set_pc s t (PR_wake q))
   | PR_wake q =>
@@ -218,30 +246,48 @@ Definition gstep (c : cfg) (s : gst) (t : Z) : option gst :=
       | NoCommit _ _ => Some (set_rwakers (set_pc s t Idle) (remove_z t (rwakers s)))
       | _ => None
       end
+  (* ---------------- activation *)
+  | PA_rmw q =>
+      match resume_activate_loop 0 1 (st s) with
+      | Commit new _ =>
+          let s1 := set_st s new in
+          if nz (Z.land (Z.lxor (st s) new) 36028797018963968) then Some (set_pc s1 t (PA_role q))
+          else if suspended_word new then Some (set_pc s1 t Idle)
+          else Some (set_pc s1 t POut)                       (* DISPATCH_CLIENT_CRASH "Invalid suspension state" *)
+      | NoCommit _ _ => Some (set_pc s t Idle)                (* already active *)
+      | _ => None
+      end
+  | PA_role q =>
+      match inherit_wlh_loop 0 0 (st s) (68719476736 * role_bits c) with
+      | Commit new _ => Some (set_pc (set_st s new) t (PR_rmw q))
+      | NoCommit _ _ => Some (set_pc s t (PR_rmw q))
+      | _ => None
+      end
   (* ---------------- the drain *)
   | PW_lock floor =>
       match f_dispatch_queue_drain_try_lock 0 0 1 t floor (st s) 0 with
       | Commit new owned =>
           Some (if owned =? 0 then set_token (set_pc (set_st s new) t Idle) None
-                else set_pc (set_st s new) t (PW_susp owned))
+                else set_pc (set_st s new) t (PW_inst owned))
       | Restart _ => Some (set_pc s t (PW_lock (f_dq_state_max_qos (st s))))
       | _ => None
       end
+  | PW_inst owned => Some (set_pc (set_installed s) t (PW_susp owned))
   | PW_susp owned => Some (set_pc s t (if suspended_word (st s) then PW_fin (owned_unlock owned) else PW_flags owned))
   | PW_flags owned => Some (set_pc s t (if cancelled s then PW_unlock (owned_unlock owned) else PW_pend owned))
   | PW_pend owned => Some (set_pc s t (if pend s =? 0 then PW_unlock (owned_unlock owned) else PW_latch owned))
   | PW_latch owned =>
       let prev := pend s in
       let p' := latch_next (ck c) owned prev in
-      Some {| st := st s; pend := 0; cancelled := cancelled s; rootq := rootq s; pcs := upd (pcs s) t p'; token := token s;
+      Some {| st := st s; pend := 0; cancelled := cancelled s; installed := installed s; rootq := rootq s; pcs := upd (pcs s) t p'; token := token s;
               wakers := wakers s; rwakers := rwakers s; latched := (match p' with PW_call _ x => x | _ => 0 end);
               running := running s; merged := merged s; dropped := dropped s; delivered := delivered s |}
   | PW_call owned prev =>
-      Some {| st := st s; pend := pend s; cancelled := cancelled s; rootq := rootq s; pcs := upd (pcs s) t (PW_incall owned);
+      Some {| st := st s; pend := pend s; cancelled := cancelled s; installed := installed s; rootq := rootq s; pcs := upd (pcs s) t (PW_incall owned);
               token := token s; wakers := wakers s; rwakers := rwakers s; latched := 0; running := Some t; merged := merged s;
               dropped := dropped s; delivered := prev :: delivered s |}
   | PW_incall owned =>
-      Some {| st := st s; pend := pend s; cancelled := cancelled s; rootq := rootq s; pcs := upd (pcs s) t (PW_post owned);
+      Some {| st := st s; pend := pend s; cancelled := cancelled s; installed := installed s; rootq := rootq s; pcs := upd (pcs s) t (PW_post owned);
               token := token s; wakers := wakers s; rwakers := rwakers s; latched := latched s; running := None;
               merged := merged s; dropped := dropped s; delivered := delivered s |}
   | PW_post owned =>
@@ -273,6 +319,7 @@ Definition step (c : cfg) (s : gst) (a : action) (s' : gst) : Prop :=
   | AStep t => valid_tid t /\ gstep c s t = Some s'
   end.
 Definition reach (c : cfg) (role_bits : Z) : gst -> Prop := reachable (fun s => s = init_state role_bits) (step c).
+Definition reach0 (c : cfg) : gst -> Prop := reachable (fun s => s = init_inactive) (step c).
 
 Fixpoint run (c : cfg) (s : gst) (acts : list action) : option gst :=
   match acts with
